@@ -35,7 +35,7 @@ func VerifC12Cursor() {
 	cur := &bstream.Cursor{Step: step, Block: block, LIB: lib, HeadBlock: head}
 	stop := sym.U64("stop")
 	sym.Assume(stop < 200)
-	req := &pbsubstreamsrpc.Request{StartCursor: cur.ToOpaque(), StopBlockNum: stop, StartBlockNum: 7}
+	req := &pbsubstreamsrpc.Request{StartCursor: cur.ToOpaque(), StopBlockNum: stop, StartBlockNum: int64(sym.Param("REQSTART", 7))}
 
 	// the fork resolver's answer: error, "still on the chain", or a junction below the cursor block
 	answer := sym.Choice("resolver", 3)
@@ -82,6 +82,8 @@ func VerifC12Cursor() {
 	resolved := ""
 	belowHandoff := false
 	if err == nil {
+		// with a cursor too, outputs are gated at the resolved start block (linear blocks flow from the hand-off)
+		sym.Assert(max(details.LinearGateBlockNum, details.LinearHandoffBlockNum) == max(details.ResolvedStartBlockNum, details.LinearHandoffBlockNum), "outputs-gated-at-the-resolved-start-block")
 		start = details.ResolvedStartBlockNum
 		resolved = details.ResolvedCursor
 		belowHandoff = details.ResolvedStartBlockNum < details.LinearHandoffBlockNum
